@@ -40,6 +40,8 @@ func get(p string) *annotations.HttpRule {
 //	CS(stream Chunk) Chunk            POST /l/cs body:*
 //	SS(Chunk) stream Chunk            POST /l/ss body:*
 //	Bidi(stream Chunk) stream Chunk   POST /l/bidi body:* | WEBSOCKET /l/ws body:*
+//	EchoR(Req) Chunk                  POST /l/echor body:*   (messages with repeated fields)
+//	CSR(stream Req) Chunk             POST /l/csr body:*
 //	Upload(stream Upload) Chunk       POST /l/upload/{name} body:file
 //	UploadU(Upload) Chunk             POST /l/uploadu/{name} body:file
 //	Download(Chunk) stream HttpBody   GET /l/download/{id}
@@ -55,6 +57,8 @@ func limFile() *vschema.File {
 		{Name: "CS", In: "vf.Chunk", Out: "vf.Chunk", CS: true, Rule: post("/l/cs", "*")},
 		{Name: "SS", In: "vf.Chunk", Out: "vf.Chunk", SS: true, Rule: post("/l/ss", "*")},
 		{Name: "Bidi", In: "vf.Chunk", Out: "vf.Chunk", CS: true, SS: true, Rule: bidi},
+		{Name: "EchoR", In: "vf.Req", Out: "vf.Chunk", Rule: post("/l/echor", "*")},
+		{Name: "CSR", In: "vf.Req", Out: "vf.Chunk", CS: true, Rule: post("/l/csr", "*")},
 		{Name: "Upload", In: "vf.Upload", Out: "vf.Chunk", CS: true, Rule: post("/l/upload/{name}", "file")},
 		{Name: "UploadU", In: "vf.Upload", Out: "vf.Chunk", Rule: post("/l/uploadu/{name}", "file")},
 		{Name: "Download", In: "vf.Chunk", Out: "google.api.HttpBody", SS: true, Rule: get("/l/download/{id}")},
